@@ -38,7 +38,7 @@ def main():
     known = ["efivarfs/fswrapper", "efivarfs/testfs", "efi/signature", "efi/attributes", "efi/device", "efi/util", "efi/attr", "efi/fs", "authenticode", "pkcs7", "efivarfs", "efivar", "efi"]
     pkgdir = ""
     for k in known:
-        if re.search(r"(?<![A-Za-z0-9_/])" + re.escape(k) + r"/?(?![A-Za-z0-9_])", head.split("package ")[0]):
+        if re.search(r"(?<![A-Za-z0-9_/])" + re.escape(k) + r"/?(?![A-Za-z0-9_])", head.split("\npackage ")[0]):
             pkgdir = k
             break
     if not pkgdir:
@@ -46,7 +46,7 @@ def main():
         byname = {"authenticode": "authenticode", "pkcs7": "pkcs7", "signature": "efi/signature", "util": "efi/util", "device": "efi/device",
                   "efivarfs": "efivarfs", "efivarfs_test": "efivarfs", "efivar": "efivar", "attributes": "efi/attributes", "efi": "efi",
                   "testfs": "efivarfs/testfs", "fswrapper": "efivarfs/fswrapper"}
-        pkgdir = byname.get(pm.group(1) if pm else "", "")
+        pkgdir = byname.get((pm.group(1) if pm else "").replace("_test", ""), "")
     meta = {"property": prop, "variant": which, "demo_package_dir": pkgdir}
     scratch = f"/tmp/vp-scratch-eval-{prop}-{which}"
     sh(f"git -C /repo worktree remove --force {scratch}")
